@@ -385,6 +385,8 @@ class LiteralMethod(DeserializationMethod):
                         return self.value_map[coerced.__class__, coerced]
                     except (KeyError, ValidationError):
                         pass  # not coercible to this class, maybe to the next one
+                    except TypeError:
+                        pass  # unhashable result of a custom coercer: not a value
             raise ValidationError(format_error(self.error, data))
         except TypeError:
             raise bad_type(data, *self.types)
